@@ -19,6 +19,7 @@ import (
 	"io"
 	"net"
 	"net/http"
+	"net/url"
 	"strings"
 	"testing"
 	"time"
@@ -176,8 +177,15 @@ func (l *vlab) SendRaw(transport string, payload []byte) (r vlabResult) {
 		return l.sendStream(c, payload)
 	case "doh-post", "doh-get":
 		return l.sendDoH(transport == "doh-post", payload)
+	case "doh-get-wrapped":
+		// the dns= value with a line feed after every fourth character: base64 decoders skip
+		// line breaks, so it decodes to fewer bytes than its length suggests
+		return l.sendDoHGetValue(vlabWrap(base64.RawURLEncoding.EncodeToString(payload), 4))
 	case "doq":
-		return l.sendDoQ(payload)
+		return l.sendDoQ(payload, len(payload))
+	case "doq-longprefix":
+		// the 2-byte length prefix announces more bytes than the stream carries before FIN
+		return l.sendDoQ(payload, len(payload)+33)
 	}
 	return vlabResult{Note: "err:unknown transport " + transport}
 }
@@ -242,6 +250,23 @@ func (l *vlab) sendStream(c net.Conn, payload []byte) (r vlabResult) {
 	}
 }
 
+func vlabWrap(s string, n int) string {
+	var sb strings.Builder
+	for i := 0; i < len(s); i += n {
+		sb.WriteString(s[i:min(i+n, len(s))])
+		sb.WriteString("\n")
+	}
+	return sb.String()
+}
+
+func (l *vlab) sendDoHGetValue(v string) (r vlabResult) {
+	req, err := http.NewRequest(http.MethodGet, "https://test.local"+dnsserver.PathDoH+"?dns="+url.QueryEscape(v), nil)
+	if err != nil {
+		return vlabResult{Note: "err:" + err.Error()}
+	}
+	return l.doDoH(req)
+}
+
 func (l *vlab) sendDoH(post bool, payload []byte) (r vlabResult) {
 	var req *http.Request
 	var err error
@@ -251,6 +276,14 @@ func (l *vlab) sendDoH(post bool, payload []byte) (r vlabResult) {
 	} else {
 		req, err = http.NewRequest(http.MethodGet, u+"?dns="+base64.RawURLEncoding.EncodeToString(payload), nil)
 	}
+	if err != nil {
+		return vlabResult{Note: "err:" + err.Error()}
+	}
+	return l.doDoH(req)
+}
+
+func (l *vlab) doDoH(req *http.Request) (r vlabResult) {
+	var err error
 	if err != nil {
 		return vlabResult{Note: "err:" + err.Error()}
 	}
@@ -285,7 +318,7 @@ func (l *vlab) SendJSON(rawQuery string) (status int, body []byte, err error) {
 	return resp.StatusCode, body, nil
 }
 
-func (l *vlab) sendDoQ(payload []byte) (r vlabResult) {
+func (l *vlab) sendDoQ(payload []byte, declared int) (r vlabResult) {
 	cc := l.tlsConf.Clone()
 	cc.NextProtos = dnsserver.NextProtoDoQ
 	ctx, cancel := context.WithTimeout(context.Background(), 3*time.Second)
@@ -299,7 +332,7 @@ func (l *vlab) sendDoQ(payload []byte) (r vlabResult) {
 	if err != nil {
 		return vlabResult{Note: "err:" + err.Error()}
 	}
-	msg := binary.BigEndian.AppendUint16(nil, uint16(len(payload)))
+	msg := binary.BigEndian.AppendUint16(nil, uint16(declared))
 	msg = append(msg, payload...)
 	if _, err = stream.Write(msg); err != nil {
 		return vlabResult{Note: "err:" + err.Error()}
